@@ -276,6 +276,7 @@ class Engine:
     def run_block(self, module, cls, stmts, env, fn=None):
         """execute a mechanically located slice (list of statements) in the given environment"""
         frame = Frame(module, cls, env, fn)
+        frame.is_slice = True       # locals come from the contract: a name it does not provide is unknown, not unbound
         self.frames.append(frame)
         try:
             self.exec_block(stmts)
@@ -299,6 +300,9 @@ class Engine:
                 continue
             if name in m.consts:
                 return m.consts[name]
+            if name in getattr(m, "loggers", ()):
+                noop = lambda e, *a, **k: None
+                return Opaque("logger", methods={k_: noop for k_ in ("debug", "info", "warning", "error", "exception", "critical", "log", "isEnabledFor")})
             if name in m.functions:
                 return FuncRef(mn, m.functions[name], "%s.%s" % (mn, name))
             if name in m.classes:
@@ -308,6 +312,8 @@ class Engine:
         if name == "np":
             return self.np
         if fr.fn is not None and name in self._assigned_names(fr.fn.body):
+            if getattr(fr, "is_slice", False):
+                raise Unsupported("the slice contract provides no value for the local %r (line %s)" % (name, getattr(node, "lineno", "?")))
             raise PyRaise("UnboundLocalError", name, node, implicit=True)      # a local read before any assignment on this path
         raise Unsupported("free name %r (line %s)" % (name, getattr(node, "lineno", "?")))
 
@@ -531,6 +537,12 @@ class Engine:
                     if other == {} or other == []:
                         return z3.Not(p.nonempty)
                     raise Unsupported("PhaseConf == %r" % (other,))
+                if (isinstance(a, Opaque) and isinstance(b, enum.Enum)) or (isinstance(b, Opaque) and isinstance(a, enum.Enum)):
+                    raise Unsupported("comparison of an opaque object with an Enum member (the side-car model gives it no meaning)")
+                for x_, y_ in ((a, b), (b, a)):
+                    if isinstance(x_, (Opaque, HMap)) and isinstance(y_, (list, dict, tuple, str, set)) and not isinstance(y_, CondStr):
+                        # an abstract container compared with a literal container: its model has to say (eq method), guessing 'different' would be unsound
+                        raise Unsupported("comparison of an abstract container (%s) with a literal %s" % (getattr(x_, "tag", getattr(x_, "label", "?")), type(y_).__name__))
                 return a is b
             try:
                 return bool(a == b)
@@ -1481,6 +1493,7 @@ def _b_int(e, x=0):
 
 def _b_all(e, it):
     if isinstance(it, AccList): return SV(z3.Bool("all(%s)" % it.name), "bool")    # same list, same comprehension -> same truth value
+    if isinstance(it, Seq): return _b_all_seq(e, it)
     for v in e.iterate(it):
         if not e.decide(e.truth(v)): return False
     return True
@@ -1488,9 +1501,20 @@ def _b_all(e, it):
 
 def _b_any(e, it):
     if isinstance(it, AccList): return SV(z3.Bool("any(%s)" % it.name), "bool")
+    if isinstance(it, Seq):
+        # any(seq) over a symbolic sequence: exists an index whose element is truthy (elements must be symbolic scalars)
+        j = z3.Int("anyj!%d" % id(it)); el = it.elem(j)
+        if not is_sym(el): raise Unsupported("any() over a sequence of non-scalar elements")
+        return SV(z3.Exists([j], z3.And(j >= 0, j < it.ln, e.truth(el))), "bool")
     for v in e.iterate(it):
         if e.decide(e.truth(v)): return True
     return False
+
+
+def _b_all_seq(e, it):
+    j = z3.Int("allj!%d" % id(it)); el = it.elem(j)
+    if not is_sym(el): raise Unsupported("all() over a sequence of non-scalar elements")
+    return SV(z3.ForAll([j], z3.Implies(z3.And(j >= 0, j < it.ln), e.truth(el))), "bool")
 
 
 def _b_sum(e, it, start=0):
